@@ -247,8 +247,9 @@ func init() {
 	}
 	mixed := with(obsW, "obsNew", 3, "obsReg", 3, "filterNew", 6, "filterReg", 5, "query", 12, "stats", 4, "shrink", 3, "reset", 1, "setRel", 8, "removeEntity", 9, "removeEntities", 5, "newBatch", 8, "dumpLoad", 1)
 	Props["C12"] = &PropDef{
-		ID:       "C12",
-		Profile:  &Profile{Name: "mixed", W: mixed, MaxEnts: 40, MinOps: 20, MaxOps: 120, RelBias: 60, Caps: []int{1, 1, 2, 3, 4, 8, 16}, Bulk: 20},
+		ID: "C12",
+		Profile: &Profile{Name: "mixed", W: with(mixed, "qOpen", 2, "qNext", 3, "qClose", 3, "register", 2, "misuse", 2, "batchCall", 1, "dump", 1, "loadSaved", 1, "emit", 1, "res", 1, "scenario", 2),
+			MaxEnts: 40, MinOps: 20, MaxOps: 120, RelBias: 60, Caps: []int{1, 1, 2, 3, 4, 8, 16}, Bulk: 20, OpenQ: true, MaxOpenQ: 3, Misuse: true},
 		Policies: []Policy{{}, {}},
 		Opt:      Options{DeepEvery: 10},
 		Rule: genNote + "every op list (all op kinds incl. relation-table recycling, cached filters, observers, Shrink, Reset) is executed twice in one process and once in each of 3 long-lived child processes (separate map hash seeds); " +
@@ -260,8 +261,8 @@ func init() {
 	}
 	Props["C20"] = &PropDef{
 		ID: "C20",
-		Profile: &Profile{Name: "builds", W: with(mixed, "probe", 18, "misuse", 10, "read", 4, "dumpLoad", 0), MaxEnts: 30, MinOps: 20, MaxOps: 100, RelBias: 40, MaxFill: 48, Misuse: true,
-			Caps: []int{1, 2, 3, 4, 8, 16}},
+		Profile: &Profile{Name: "builds", W: with(mixed, "probe", 18, "misuse", 10, "read", 4, "dumpLoad", 0, "qOpen", 3, "qNext", 4, "qClose", 4, "register", 2, "batchCall", 1, "emit", 1, "res", 1, "scenario", 2), MaxEnts: 30, MinOps: 20, MaxOps: 100, RelBias: 40, MaxFill: 48, Misuse: true,
+			Caps: []int{1, 2, 3, 4, 8, 16}, OpenQ: true, MaxOpenQ: 3},
 		Policies: []Policy{{}},
 		Opt:      Options{DeepEvery: 10},
 		Rule: genNote + "histories restricted to 64 component types (0-48 filler types) with probes the model does not predict (query access before the first Next, after exhaustion and after Close; Get/Set/GetRelation/Has of missing components, " +
